@@ -45,11 +45,20 @@ def api_surface(all_public=False):
         if name.startswith('_'):
             continue
         o = getattr(pt, name)
-        if not inspect.isfunction(o) or not (o.__module__ or '').startswith('peptacular'):
+        if inspect.isclass(o) or inspect.ismodule(o) or not callable(o):
+            continue
+        try:
+            base = inspect.unwrap(o)         # a decorated / memoised public function is still a public function
+        except Exception:
+            base = o
+        if not (getattr(base, '__module__', None) or getattr(o, '__module__', None) or '').startswith('peptacular'):
             continue
         ps = []
-        for p in inspect.signature(o).parameters.values():
-            ps.append((p.name, _kinds_of(p)))
+        try:
+            for p in inspect.signature(o).parameters.values():
+                ps.append((p.name, _kinds_of(p)))
+        except (TypeError, ValueError):
+            ps = [('?', '')]
         if all_public or any(k for _, k in ps):
             out.append((name, ps))
     for name in sorted(dir(ProFormaAnnotation)):
@@ -65,8 +74,8 @@ def api_surface(all_public=False):
             for i, p in enumerate(inspect.signature(o).parameters.values()):
                 ps.append((p.name, 'A' if i == 0 else _kinds_of(p)))
             out.append((f'ProFormaAnnotation.{name}', ps))
-    if all_public:
-        from peptacular.fragmentation import Fragmenter
+    Fragmenter = getattr(pt, 'Fragmenter', None)
+    if all_public and Fragmenter is not None:
         for name in sorted(vars(Fragmenter)):
             o = vars(Fragmenter)[name]
             if not name.startswith('_') and inspect.isfunction(o):
@@ -386,8 +395,11 @@ def build_world(base, rng=None):
     w['spans'] = [(0, min(2, n), 0), (min(1, n), n, 1), (0, n, 2)]
     w['span'] = (0, min(3, n), 0)
     w['enz'] = ['([KR])', 'M']
-    w['configs'] = [EnzymeConfig(regex=['([KR])'], missed_cleavages=1), EnzymeConfig(regex='M', semi_enzymatic=True)]
-    w['config'] = EnzymeConfig(regex=['([KR])', 'E'], missed_cleavages=1, semi_enzymatic=False, complete_digestion=False)
+    try:
+        w['configs'] = [EnzymeConfig(regex=['([KR])'], missed_cleavages=1), EnzymeConfig(regex='M', semi_enzymatic=True)]
+        w['config'] = EnzymeConfig(regex=['([KR])', 'E'], missed_cleavages=1, semi_enzymatic=False, complete_digestion=False)
+    except Exception:
+        w['configs'], w['config'] = [], None
     w['d1'] = {'C': 2, 'H': 3, 'O': -1}
     w['d2'] = {'O': 1, 'N': 1}
     w['dists'] = [[(100.0, 1.0), (101.0, 0.5)], [(100.0, 0.2), (102.0, 0.1)]]
@@ -411,7 +423,12 @@ def build_world(base, rng=None):
     try:
         frags = pt.fragment(fa.copy(), ['y', 'b'], [1, 2], isotopes=[0, 1])
     except Exception:
-        frags = pt.fragment(fa.sequence, ['y', 'b'], [1, 2], isotopes=[0, 1])
+        try:
+            frags = pt.fragment(fa.sequence, ['y', 'b'], [1, 2], isotopes=[0, 1])
+        except Exception:
+            frags = []
+    w['frags'] = frags
+    frags = [f for f in frags if hasattr(f, 'mz')]
     w['frags'] = frags
     w['frag_mzs'] = [f.mz for f in frags][::-1]
     mzs = sorted(f.mz + (0.001 if i % 3 else 0.4) for i, f in enumerate(frags) if i % 4 != 1)
@@ -824,6 +841,7 @@ class State:
         self.fresh = []      # per shape: spec name -> canonical result on a fresh world
         self.writes = []     # per shape: spec name -> world keys observed changed by the call on a fresh world
         self.first_call_failures = []   # module-level tables of the package that changed at the very first calls (caches)
+        self.spec_broken = []           # specs that no longer fit the API (signature changed, name vanished)
         for si, w0 in enumerate(self.worlds):
             u, f = {}, {}
             for s in self.specs:
@@ -840,10 +858,17 @@ class State:
                 _random.setstate(st)
                 u[s.name] = close_keys(rw.read)
                 f[s.name] = r
+                if si == 0 and r.startswith(HARNESS_LEVEL_EXC):
+                    self.spec_broken.append({
+                        'kind': 'spec-does-not-fit-api', 'shape': self.wires[si], 'calls': [s.name], 'changed': [],
+                        'detail': f'{s.api}: the call spec raises {r[:200]} - the public signature / name changed (no current spec '
+                                  f'raises one of these on the unchanged tree); the member is not exercised until the spec is updated'})
             self.uses.append(u)
             self.fresh.append(f)
             self.writes.append({})
 
+
+HARNESS_LEVEL_EXC = ('EXC:TypeError', 'EXC:AttributeError', 'EXC:NameError', 'EXC:ImportError', 'EXC:UnboundLocalError')
 
 STATE = None
 
@@ -918,13 +943,43 @@ def single_check(si, spec, w0=None, wire=None):
     return fails, changed, shared
 
 
+def _guarded(task, arg):
+    """a worker task never raises: an unexpected exception becomes one reported failure"""
+    try:
+        return task(arg)
+    except Exception as e:  # noqa
+        import traceback
+        return {'evals': 0, 'nfail': 1, 'shares': {}, 'observed': {}, 'writes': {}, 'failures': [{
+            'kind': 'harness-exception', 'shape': '', 'calls': [task.__name__ + repr(arg)[:40]], 'changed': [],
+            'detail': f'{task.__name__}: unexpected {type(e).__name__}: {e}; ' + traceback.format_exc()[-600:]}]}
+
+
+def g_single(arg):
+    return _guarded(task_single, arg)
+
+
+def g_pairs(arg):
+    return _guarded(task_pairs, arg)
+
+
+def g_triples(arg):
+    return _guarded(task_triples, arg)
+
+
+def g_fragmenter(arg):
+    return _guarded(task_fragmenter, arg)
+
+
 def task_single(si):
     st = STATE
     fails, observed, n = [], {}, 0
     shares = {}
     full0 = db_stamp_full()
     for s in st.specs:
-        f, changed, shared = single_check(si, s)
+        try:
+            f, changed, shared = single_check(si, s)
+        except Exception as e:  # noqa - an exception of the checking machinery for one function is a failure of that function
+            f, changed, shared = [fail('check-exception', si, [s.name], f'{s.api}: checking this call raised {type(e).__name__}: {e}')], [], []
         n += 1
         fails += f
         st.writes[si][s.name] = changed
